@@ -1,4 +1,7 @@
 import Sourmash.Lemmas.Bloom
+import Sourmash.Lemmas.BloomRatios
+import Sourmash.Lemmas.BloomKmer
+import Sourmash.Lemmas.NodegraphReach
 /-! Property C15 — the nodegraph is an exact multi-table Bloom filter without false negatives.
 
 Model: `NG.G` (`Model/Nodegraph.lean`, tables as 32-bit block lists like `FixedBitSet`).
@@ -39,6 +42,9 @@ theorem ref_get (hs : ∀ s ∈ sizes, 1 ≤ s) (r : Reach sizes g H u) (h : Nat
     exact all_map_of_mem _ _ _ _ (fun t ht => inv.bits t ht _)
   rw [this]
 
+example : ((G.new [7, 11] 5).count 3).1.get 14 = Ref.get { sizes := [7, 11], hashes := [3] } 14 :=
+  ref_get (by decide) (Reach.count 3 (Reach.new 5)) 14
+
 /-- T-no_false_neg: every hash that was inserted — into this filter or into any filter that was
     unioned in — is reported present.  `H` only grows along a history (`Reach.count` conses,
     `Reach.update` appends), so this holds forever after the insertion. -/
@@ -78,6 +84,13 @@ theorem no_false_neg_union (hs : ∀ s ∈ sizes, 1 ≤ s) {o : G} {Ho : List Na
     (g.updateFrom o).get h = 1 :=
   no_false_neg hs (Reach.update r ro) h (by simpa using hm)
 
+/-- T-no_false_neg, "forever": whatever `count`s and unions follow (`NG.Later`), a hash that was in
+    the filter stays reported present. -/
+theorem no_false_neg_forever (hs : ∀ s ∈ sizes, 1 ≤ s) (r : Reach sizes g H u)
+    {g' : G} {H' : List Nat} {u' : Nat} (l : Later sizes g H u g' H' u') (h : Nat) (hm : h ∈ H) :
+    g'.get h = 1 :=
+  no_false_neg hs (l.reach r).1 h ((l.reach r).2 h hm)
+
 example : ((G.new [7, 11] 5).count 3).1.get 3 = 1 :=
   no_false_neg_count (sizes := [7, 11]) (by decide) (Reach.new 5) 3
 
@@ -100,6 +113,9 @@ theorem count_new (hs : ∀ s ∈ sizes, 1 ≤ s) (r : Reach sizes g H u) (h : N
     rw [← inv.sizes_eq]
     exact any_map_of_mem _ _ _ (fun s => !refBit H s (h % s)) (fun t ht => by rw [inv.bits t ht])
 
+example : (((G.new [7, 11] 5).count 3).1.count 10).2 = Ref.isNew { sizes := [7, 11], hashes := [3] } 10 :=
+  (count_new (by decide) (Reach.count 3 (Reach.new 5)) 10).2
+
 /-- a `count` changes no bit other than `h % size` in each table -/
 theorem count_only_sets (hs : ∀ s ∈ sizes, 1 ≤ s) (r : Reach sizes g H u) (h : Nat) :
     ∀ t ∈ g.tables, ∀ b, (t.put (h % t.size)).1.get b = (t.get b || b == h % t.size) := by
@@ -107,14 +123,6 @@ theorem count_only_sets (hs : ∀ s ∈ sizes, 1 ≤ s) (r : Reach sizes g H u) 
   have inv := r.inv hs
   have hlt : h % t.size < t.size := Nat.mod_lt _ (inv.size_pos hs t ht)
   exact Table.put_get t _ b (by rw [inv.len t ht]; unfold nblocks; omega)
-
-theorem countOnes_eq_refCount (t : Table) (hb : ∀ b, t.get b = refBit H t.size b) :
-    t.countOnes = refCount H t.size := by
-  unfold Table.countOnes Table.ones refCount refOnes
-  congr 1
-  apply List.filter_congr
-  intro b _
-  exact hb b
 
 /-- T-counters: `occupied_bins` is the number of set bits of the first table (= the size of the
     reference set of table 0; 0 without tables) and `unique_kmers` is the number of `count` calls
@@ -137,5 +145,62 @@ theorem counters (hs : ∀ s ∈ sizes, 1 ≤ s) (r : Reach sizes g H u) :
     simp [hsz, countOnes_eq_refCount t (inv.bits t ht)]
 
 example : ((G.new [7, 11] 5).count 3).1.occupied = 1 ∧ ((G.new [7, 11] 5).count 3).1.unique = 1 := by decide
+example := counters (sizes := [7, 11]) (by decide) (Reach.count 3 (Reach.new 5))
+
+/-- T-ratios: `similarity` and `containment` (before the final `as f64 /`) are the bit-set ratios of the
+    reference filters: (Σᵢ |Aᵢ ∩ Bᵢ|, Σᵢ |Aᵢ ∪ Bᵢ|) and (Σᵢ |Aᵢ ∩ Bᵢ|, Σᵢ |Aᵢ|) over the tables. -/
+theorem ratios (hs : ∀ s ∈ sizes, 1 ≤ s) {o : G} {Ho : List Nat} {uo : Nat}
+    (r : Reach sizes g H u) (ro : Reach sizes o Ho uo) :
+    g.similarity o = Ref.similarity { sizes := sizes, hashes := H } { sizes := sizes, hashes := Ho } ∧
+    g.containment o = Ref.containment { sizes := sizes, hashes := H } { sizes := sizes, hashes := Ho } :=
+  ratios_of_inv (r.inv hs) (ro.inv hs)
+
+example := ratios (sizes := [31]) (by decide) (Reach.count 2 (Reach.new 3)) (Reach.count 4 (Reach.count 2 (Reach.new 3)))
+
+/-- the crate's `containment` test: evens 0..18 in one filter of 31 bins, 0..19 in the other -/
+example :
+    let a := (G.new [31] 3).updateHashes [0, 2, 4, 6, 8, 10, 12, 14, 16, 18]
+    let b := (G.new [31] 3).updateHashes (List.range 20)
+    a.containment b = (10, 10) ∧ a.similarity b = (10, 20) := by decide
+
+/-! ### T-kmer_rc -/
+
+/-- T-kmer_rc (strand symmetry): for every ACGT k-mer, of any length, `_hash` gives a k-mer and
+    its reverse complement the same value, so `count_kmer` / `get_kmer` treat them as one element. -/
+theorem kmer_rc (kmer : List Nat) (h : ∀ c ∈ kmer, isACGT c = true) :
+    hashKmer (revcomp kmer) = hashKmer kmer ∧ hashKmerChecked (revcomp kmer) = hashKmerChecked kmer := by
+  unfold hashKmer hashKmerChecked
+  rw [hashKmerCore_revcomp kmer h, revcomp_length]
+  have : (revcomp kmer).isEmpty = kmer.isEmpty := by
+    cases kmer <;> simp [revcomp]
+  rw [this]
+  exact ⟨rfl, rfl⟩
+
+/-- … and for 1 ≤ k ≤ 32 that value is the smaller of the two 2-bit encodings (A=0, T=1, C=2, G=3,
+    first base most significant) of the k-mer and of its reverse complement. -/
+theorem kmer_canonical (kmer : List Nat) (h : ∀ c ∈ kmer, isACGT c = true)
+    (h1 : 1 ≤ kmer.length) (h32 : kmer.length ≤ 32) : hashKmer kmer = some (canonical kmer) := by
+  unfold hashKmer
+  have : kmer.isEmpty = false := by cases kmer <;> simp at h1 ⊢
+  rw [this, hashKmerCore_canonical kmer h h32]
+  rfl
+
+/-- the same in a build with overflow checks, where it needs 2 ≤ k … -/
+theorem kmer_canonical_checked (kmer : List Nat) (h : ∀ c ∈ kmer, isACGT c = true)
+    (h2 : 2 ≤ kmer.length) (h32 : kmer.length ≤ 32) : hashKmerChecked kmer = some (canonical kmer) := by
+  unfold hashKmerChecked
+  rw [if_neg (by omega), hashKmerCore_canonical kmer h h32]
+
+/-- … because a 1-mer panics there (`(ksize - 2) as isize`; recorded in findings/C15.json). -/
+theorem kmer_checked_k1 (c : Nat) : hashKmerChecked [c] = none := rfl
+
+example : hashKmer [65, 67, 71] = some (canonical [65, 67, 71]) ∧ canonical [65, 67, 71] = 11 := by decide
+
+/-- `count_kmer` of a k-mer and of its reverse complement are the same operation -/
+theorem countKmer_rc (g : G) (kmer : List Nat) (h : ∀ c ∈ kmer, isACGT c = true) :
+    g.countKmer (revcomp kmer) = g.countKmer kmer ∧ g.getKmer (revcomp kmer) = g.getKmer kmer := by
+  unfold G.countKmer G.getKmer
+  rw [(kmer_rc kmer h).1]
+  exact ⟨rfl, rfl⟩
 
 end Sourmash.C15
